@@ -116,6 +116,16 @@ pub fn gen_case(seed: u64, idx: usize, acc: &mut Acc) -> Case {
             6 if n > 1 => "missing",
             _ => "regular",
         };
+        // a file of the proc file system: regular, reported size 0, mapping it fails (EIO or ENODEV) - the
+        // reader fallback must take over; the content is whatever this machine has there
+        if rng.chance(1, 40) {
+            let name = *rng.pick(&["/proc/version", "/proc/sys/kernel/ostype", "/proc/filesystems", "/proc/cmdline"]);
+            if let Ok(b) = std::fs::read(name) {
+                acc.count("content_of_a_procfs_file");
+                inputs.push(Input { name: name.into(), kind: "procfs", content: b });
+                continue;
+            }
+        }
         if kind == "stdin" {
             // (standard input is read through a reader: the recorded slice-only finding does not apply)
             if !inputs.iter().any(|x: &Input| x.kind == "stdin") {
@@ -184,6 +194,10 @@ pub fn judge(case: &Case, acc: &mut Acc) {
             "regular" => {
                 sc.file(&inp.name, &inp.content);
                 files.insert(inp.name.clone(), PathKind::Regular(inp.content.clone()));
+            }
+            "procfs" => {
+                // exists already; the model reads it through a reader, like a FIFO
+                files.insert(inp.name.clone(), PathKind::Fifo(inp.content.clone()));
             }
             "fifo" => {
                 sc.fifo(&inp.name);
@@ -291,9 +305,9 @@ pub fn run(ctx: &Ctx) -> i32 {
         judge(&case, acc);
     });
     strace_sample(&mut acc);
-    let rule = format!("{} invocations: -f absent or each format x 1-3 inputs, each a regular file / FIFO / '-' (also twice; standard input a pipe, or a regular file at offset 0 or past earlier bytes; one run in five delivers pipe and FIFO content in bursts with pauses) / directory / missing file, named with every extension in random letter case, multi-dot, none or misleading, holding content of each format (1-3 generated documents), content valid in several formats, large documents with long multi-line strings (tens of KiB of output), or invalid content, x all targets; expected stdout and exit status computed by the library in the matching supply mode; distinct non-trivial = distinct invocations", n);
+    let rule = format!("{} invocations: -f absent or each format x 1-3 inputs, each a regular file / FIFO / '-' (also twice; standard input a pipe, or a regular file at offset 0 or past earlier bytes; one run in five delivers pipe and FIFO content in bursts with pauses) / directory / missing file / (one in 40) a procfs file, which is regular, reports size 0 and cannot be mapped, named with every extension in random letter case, multi-dot, none or misleading, holding content of each format (1-3 generated documents), content valid in several formats, large documents with long multi-line strings (tens of KiB of output), or invalid content, x all targets; expected stdout and exit status computed by the library in the matching supply mode; distinct non-trivial = distinct invocations", n);
     ev::finish(
-        Finish { ctx, level: "exploration", rule, assumptions: vec!["document-less YAML regular files are kept out (recorded C02 finding)".into(), "strace counters are evidence that both supply modes were really observed, not an oracle".into()], extra: serde_json::Map::new(), exhaustive: false, min_distinct: 1000, must_reach: vec![("input_kind_fifo".into(), 200), ("input_kind_stdin".into(), 200), ("input_kind_regular".into(), 1000), ("extension_with_upper_case".into(), 500), ("extension_kind_multi_dot".into(), 200), ("stdin_named_twice".into(), 20), ("resolved_detect_slice".into(), 100), ("resolved_detect_reader".into(), 100), ("stdin_is_regular_file_at_later_offset".into(), 100), ("stdin_is_regular_file_at_offset_0".into(), 50), ("stdin_delivered_in_bursts".into(), 50), ("fifo_delivered_in_bursts".into(), 50), ("content_zero_length".into(), 100), ("input_names_not_utf8".into(), 100), ("content_large_multiline_content".into(), 100)] },
+        Finish { ctx, level: "exploration", rule, assumptions: vec!["document-less YAML regular files are kept out (recorded C02 finding)".into(), "strace counters are evidence that both supply modes were really observed, not an oracle".into()], extra: serde_json::Map::new(), exhaustive: false, min_distinct: 1000, must_reach: vec![("input_kind_fifo".into(), 200), ("input_kind_stdin".into(), 200), ("input_kind_regular".into(), 1000), ("extension_with_upper_case".into(), 500), ("extension_kind_multi_dot".into(), 200), ("stdin_named_twice".into(), 20), ("resolved_detect_slice".into(), 100), ("resolved_detect_reader".into(), 100), ("stdin_is_regular_file_at_later_offset".into(), 100), ("stdin_is_regular_file_at_offset_0".into(), 50), ("stdin_delivered_in_bursts".into(), 50), ("fifo_delivered_in_bursts".into(), 50), ("content_zero_length".into(), 100), ("input_names_not_utf8".into(), 100), ("content_large_multiline_content".into(), 100), ("input_kind_procfs".into(), 50)] },
         acc,
     )
 }
@@ -304,6 +318,7 @@ pub fn replay(v: &Value) -> i32 {
     for i in c["inputs"].as_array().cloned().unwrap_or_default() {
         let kind: &'static str = match i["kind"].as_str() {
             Some("fifo") => "fifo",
+            Some("procfs") => "procfs",
             Some("stdin") => "stdin",
             Some("directory") => "directory",
             Some("missing") => "missing",
